@@ -181,7 +181,8 @@ template <int OP, Representation R> void s_consys(Ctx& c) {
 template <int OP, Representation R> void s_gensys(Ctx& c) {
   const Representation O = R == DENSE ? SPARSE : DENSE; int n = rnd(1, 8);
   Generator_System gs(R); gs.insert(Generator(point(rexpr(n) , 2), R)); for (int i = rnd(0, 4); i > 0; --i) gs.insert(Generator(pplx::rand_gen(n, true, false), R));
-  Generator g(ray(Variable(rnd(0, n - 1)) + rexpr(n)), O); std::string text = dump(gs); bool ok = true; Generator_System out(R);
+  Linear_Expression dir = rexpr(n); dir += Variable(rnd(0, n - 1)); if (dir.all_homogeneous_terms_are_zero()) dir += Variable(0);
+  Generator g(ray(dir), O); std::string text = dump(gs); bool ok = true; Generator_System out(R);
   c.run([&] {
     switch (OP) {
     case S_INSERT: gs.insert(g); gs.insert(Generator(closure_point(rexpr(n + 3), 3), R)); gs.insert(line(Variable(n + 9))); break;
